@@ -12,6 +12,7 @@ import (
 	ophosttypes "github.com/initia-labs/OPinit/x/ophost/types"
 
 	"verifharness/evid"
+	"verifharness/henv"
 )
 
 var c05Weights = []weighted{{"claim", 10}, {"advance", 9}, {"propose", 7}, {"delete", 6}, {"deposit", 4}, {"create", 3}, {"role", 2}}
@@ -57,7 +58,7 @@ func TestC05Rapid(t *testing.T) {
 		repeatSteps(rt, 50, func(i int) {
 			if i == bulkAt && len(w.ids) > 0 {
 				// the proposer catches up in a burst: dozens of pending outputs above whatever is final already
-				w.bulkPropose(rt, w.bridges[w.ids[0]], rapid.IntRange(30, 120).Draw(rt, "bulkN"))
+				w.bulkPropose(rt, w.bridges[w.ids[0]], rapid.SampledFrom([]int{30, 45, 70, 120, 257, 300}).Draw(rt, "bulkN"))
 				c.Class("burst-of-30-or-more-pending-outputs")
 			}
 			var preMust, preMay bool
@@ -199,4 +200,36 @@ func TestC05Rapid(t *testing.T) {
 		c.Sample(func() interface{} { return map[string]interface{}{"history": w.log} })
 		c.Done()
 	})
+}
+
+// TestC05GenesisPeriod: a chain cannot be started from a genesis that contains a bridge whose
+// finalization period (or submission interval) is not strictly positive: the import refuses it.
+// (InitChain does not run genesis validation, so the import itself is the last line.)
+func TestC05GenesisPeriod(t *testing.T) {
+	rec := evid.For("C05")
+	for _, p := range []time.Duration{0, -1, -time.Hour} {
+		src := henv.NewL1(henv.L1Options{NoHook: true})
+		u := henv.MakeUser("c05-genesis")
+		if r := src.Deliver(ophosttypes.NewMsgCreateBridge(u.Str, henv.DefaultBridgeConfig(u.Str, u.Str, time.Minute))); !r.OK() {
+			t.Fatal(r.Err)
+		}
+		gs := src.K.ExportGenesis(src.Ctx)
+		gs.Bridges[0].BridgeConfig.FinalizationPeriod = p
+		accepted := func() (ok bool) {
+			defer func() {
+				if r := recover(); r != nil {
+					ok = false
+				}
+			}()
+			e := importL1(src, gs)
+			_, err := e.Q.Bridge(e.Ctx, &ophosttypes.QueryBridgeRequest{BridgeId: 1})
+			return err == nil
+		}()
+		if accepted {
+			caseFail(t, fmt.Sprintf("genesis-period/%v", p), "C05 violated: a chain started from a genesis whose bridge 1 has finalization period %v: every output of it is final at once", p)
+		}
+		c := rec.Begin()
+		c.Class("genesis-with-non-positive-period-refused")
+		c.Done()
+	}
 }
